@@ -52,7 +52,7 @@ ASSUMPTIONS = [
     "the archive oracle does not prescribe the name of a rotated file, only that nothing existing is replaced and every record is found where its template's lineage began",
 ]
 EXPECTED_PROBES = ["empty-output-read", "double-close", "with-body-raised", "split-exact-multiple", "split-part-readable", "rotation", "same-second-rotation",
-                   "clock-backward", "pre-existing-rotated", "restart", "skewed-stamp", "two-writers-open", "write-refused-by-injected-fault"]  # fmt: skip
+                   "clock-backward", "pre-existing-rotated", "restart", "skewed-stamp", "two-writers-open", "write-refused-by-injected-fault", "output-file-is-fd-1"]  # fmt: skip
 
 TARGETS = [
     ("stream", "/simfs/o.records"),
@@ -91,6 +91,10 @@ POOL = {
     "D1": ["c17/b", [["varint", "n"], ["string", "s"], ["boolean", "f"]]],
     "D2": ["c17/a", [["varint", "n"], ["datetime", "t"]]],
     "D3": ["sqlite3/c17", [["varint", "n"], ["string", "s"]]],
+    # identifier twins: same name and 32-bit hash, different fields (the hash input is name + field name + type name
+    # per field without separators: "s"+"string"+"t"+"string" == "sstringt"+"string")
+    "D4": ["c17/tw", [["varint", "n"], ["string", "s"], ["string", "t"]]],
+    "D5": ["c17/tw", [["varint", "n"], ["string", "sstringt"]]],
 }
 
 
@@ -132,7 +136,7 @@ def generate(rng, tier, index):
     multi = tkind not in ("avro",) and rng.random() < 0.6
     ops = []
     for i in range(n):
-        ops.append({"op": "write", "desc": rng.choice(["D0", "D1", "D2", "D3"]) if multi else "D0"})
+        ops.append({"op": "write", "desc": rng.choice(["D0", "D1", "D2", "D3", "D4", "D5", "D4", "D5"]) if multi else "D0"})
         r = rng.random()
         if r < 0.15:
             ops.append({"op": "flush"})
@@ -144,7 +148,7 @@ def generate(rng, tier, index):
     for ch in term:
         ops.append({"c": {"op": "close"}, "f": {"op": "flush"}, "X": {"op": "exit"}, "R": {"op": "raise_exit"}}[ch])
     return {"sub": "history", "target": tkind, "uri": uri, "count": count, "sl": sl, "with": term[0] in "XR", "ops": ops, "pool": POOL,
-            "buffer_size": rng.choice([1, 7, 64, 8192]), "neighbour": rng.random() < 0.35}  # fmt: skip
+            "buffer_size": rng.choice([1, 7, 64, 8192]), "neighbour": rng.random() < 0.35, "fd1": rng.random() < 0.1}  # fmt: skip
 
 
 DELTAS_US = [0, 1, 400000, 1000000, 60 * 1000000, 61 * 1000000, 59 * 60 * 1000000, 3600 * 1000000, 86400 * 1000000, -3600 * 1000000, -86400 * 1000000, 2 * 3600 * 1000000]
@@ -152,7 +156,7 @@ DELTAS_US = [0, 1, 400000, 1000000, 60 * 1000000, 61 * 1000000, 59 * 60 * 100000
 
 def gen_archive(rng, tier):
     kind = rng.choice(["archiver", "archiver", "template-hour", "template-day", "template-name", "template-field", "template-minute", "archive-uri",
-                      "template-hour-zst", "template-hour-lz4", "template-hour-bz2"])
+                      "template-hour-zst", "template-hour-lz4", "template-hour-bz2", "template-tilde"])
     n_ops = rng.choice([3, 5, 8, 12, 20, 30]) if tier == "quick" else rng.choice([3, 6, 10, 20, 40])
     burst = rng.random() < 0.5  # many events inside one second
     ops = []
@@ -334,6 +338,9 @@ def run_history(plan, w, viols, states):
     w.fs.buffer_size = plan.get("buffer_size", 8192)
     w.sim_cwd = "/simfs/cwd"
     w.fs.makedirs("/simfs/cwd/sub", exist_ok=True)
+    if plan.get("fd1"):
+        w.fs.next_fd = 1  # a daemonised process: stdout was closed, the first file opened gets descriptor 1
+        w.probe("output-file-is-fd-1")
     pool = Pool(plan["pool"])
     model = []  # (n, s) of records whose write returned
     optional = set()  # ids of writes that raised: refused, but possibly stored
@@ -387,6 +394,10 @@ def run_history(plan, w, viols, states):
                     rec = pool.make("D1", [n, "v%d" % n, bool(n % 2)])
                 elif desc == "D3":
                     rec = pool.make("D3", [n, "v%d" % n])
+                elif desc == "D4":
+                    rec = pool.make("D4", [n, "v%d" % n, "w"])
+                elif desc == "D5":
+                    rec = pool.make("D5", [n, "z"])
                 else:
                     rec = pool.make("D0", [n, "v%d" % n])
                 if neighbour is not None:
@@ -395,7 +406,7 @@ def run_history(plan, w, viols, states):
                     nb_model.append(1000 + attempted)
                 try:
                     writer.write(rec)
-                    model.append((n, "v%d" % n if desc != "D2" else "t"))
+                    model.append((n, "v%d" % n if desc not in ("D2", "D5") else "t"))
                     shape.append("w")
                     w.log("w", "write", n, "-> ok")
                 except Exception as e:  # noqa: BLE001
@@ -643,6 +654,8 @@ def expected_path(plan, root, name, gen_ts, s):
         return "%s/by/%s.records.gz" % (root, s)
     if kind == "template-minute":
         return "%s/m/%s-%s.records" % (root, name, gen_ts.strftime("%Y%m%dT%H%M"))
+    if kind == "template-tilde":
+        return "/simfs/cwd/~/arch/%s-%s.records.gz" % (name, gen_ts.strftime("%Y%m%dT%H"))
     if kind.startswith("template-hour-"):
         return "%s/%s-%s.records.%s" % (root, name, gen_ts.strftime("%Y%m%dT%H"), kind.rsplit("-", 1)[1])
     raise ValueError(kind)
@@ -662,6 +675,7 @@ def make_archiver(plan, root, name):
         "template-name": root + "/{name}.records.gz",
         "template-field": root + "/by/{record.s}.records.gz",
         "template-minute": root + "/m/{name}-{ts:%Y%m%dT%H%M}.records",
+        "template-tilde": "~/arch/{name}-{ts:%Y%m%dT%H}.records.gz",  # "~" is just a directory name here
         "template-hour-zst": root + "/{name}-{record._generated:%Y%m%dT%H}.records.zst",
         "template-hour-lz4": root + "/{name}-{record._generated:%Y%m%dT%H}.records.lz4",
         "template-hour-bz2": root + "/{name}-{record._generated:%Y%m%dT%H}.records.bz2",
@@ -672,8 +686,10 @@ def make_archiver(plan, root, name):
 def run_archive(plan, w, viols, states):
     from flow.record import RecordWriter
 
-    root = "/simfs/arch"
+    root = "/simfs/arch" if plan["kind"] != "template-tilde" else "/simfs/cwd/~/arch"
     name = plan.get("name", "records")
+    w.sim_cwd = "/simfs/cwd"
+    w.fs.makedirs("/simfs/cwd", exist_ok=True)
     w.fs.makedirs(root, exist_ok=True)
     w.fs.buffer_size = plan.get("buffer_size", 8192)
     pool = Pool(plan["pool"])
